@@ -385,3 +385,78 @@ def module_private_helpers(body, exclude=()):
             return False
         return module_of(cb) == module_of(root)
     return want
+
+
+def scalarize_tuples(prog, body):
+    """`body` with local tuples taken apart again (`match (a, b) { (false, 0) => .. }`): a local whose only definition is a
+    tuple aggregate of plain locals / constants and which is only read field by field is replaced, field by field, by its
+    components.  A fact-level simplification: the tests on `_t.0` / `_t.1` become tests on `a` / `b`."""
+    raw = dict(body.raw)
+    mir = copy.deepcopy(body.mir)
+    raw["mir"] = mir
+    blocks = mir["blocks"]
+    defs = {}
+    for blk in blocks:
+        for st in blk["s"]:
+            if st["k"] == "assign":
+                defs.setdefault(st["place"]["l"], []).append(st)
+        t = blk["t"]
+        if t["k"] == "call" and t.get("dest") is not None:
+            defs.setdefault(t["dest"]["l"], []).append(None)
+    cands = {}
+    for l, ds in defs.items():
+        if len(ds) == 1 and ds[0] is not None and not ds[0]["place"]["p"] and ds[0]["rv"]["k"] == "agg" and ds[0]["rv"].get("agg") == "tuple" and ds[0]["rv"]["ops"]:
+            ops = ds[0]["rv"]["ops"]
+            if all(("const" in o) or ((o.get("copy") or o.get("move")) and not (o.get("copy") or o.get("move"))["p"]) for o in ops):
+                cands[l] = ops
+    if not cands:
+        return body
+    # every read of the tuple must be a read of one field
+    bad = set()
+
+    def visit(x, replace):
+        if isinstance(x, dict):
+            for key in ("copy", "move"):
+                if key in x and isinstance(x[key], dict) and x[key].get("l") in cands:
+                    pl = x[key]
+                    proj = pl["p"]
+                    if proj and isinstance(proj[0], dict) and "f" in proj[0] and proj[0]["f"] < len(cands[pl["l"]]):
+                        if replace:
+                            comp = cands[pl["l"]][proj[0]["f"]]
+                            if "const" in comp and len(proj) == 1:
+                                return copy.deepcopy(comp)
+                            cp = comp.get("copy") or comp.get("move")
+                            if cp is not None:
+                                return {"copy": {"l": cp["l"], "p": list(proj[1:])}}
+                    else:
+                        bad.add(pl["l"])
+            if "l" in x and "p" in x and isinstance(x["l"], int) and x["l"] in cands and not replace:
+                # a place used otherwise (ref, discr, drop of the whole tuple is harmless)
+                pass
+            return {k: visit(v, replace) for k, v in x.items()}
+        if isinstance(x, list):
+            return [visit(v, replace) for v in x]
+        return x
+    for blk in blocks:
+        for st in blk["s"]:
+            if st["k"] == "assign":
+                rv = st["rv"]
+                if rv["k"] in ("ref", "discr", "len") and rv["place"]["l"] in cands:
+                    bad.add(rv["place"]["l"])
+                visit(rv, False)
+        visit({k: v for k, v in blk["t"].items() if k in ("discr", "args", "cond", "ops")}, False)
+    live = {l: o for l, o in cands.items() if l not in bad}
+    if not live:
+        return body
+    cands = live
+    for blk in blocks:
+        for st in blk["s"]:
+            if st["k"] == "assign" and not (st["place"]["l"] in cands and not st["place"]["p"]):
+                st["rv"] = visit(st["rv"], True)
+        for k in ("discr", "args", "cond", "ops"):
+            if k in blk["t"]:
+                blk["t"][k] = visit(blk["t"][k], True)
+    raw["scalarized"] = sorted(cands)
+    nb = Body(prog, raw, body.crate)
+    nb.children = body.children
+    return nb
